@@ -101,7 +101,7 @@ def chunkings(stream, pkts, tier, rnd):
         start = b
     pts = sorted(p for p in pts if 0 < p < n)
     if n > 20000:
-        pts = pts[:24]
+        pts = pts[:24] if tier == "thorough" else pts[:10]
     for c in pts:                                       # every 1-cut placement at the interesting positions
         if emit(cuts_to_lengths(n, [c])):
             yield cuts_to_lengths(n, [c])
@@ -111,7 +111,7 @@ def chunkings(stream, pkts, tier, rnd):
                 yield cuts_to_lengths(n, [c])
     pairs = list(itertools.combinations(pts, 2))
     rnd.shuffle(pairs)
-    for pr in pairs[: (60 if tier == "quick" else 600)]:
+    for pr in pairs[: ((60 if n < 3000 else 12) if tier == "quick" else 600)]:
         if emit(cuts_to_lengths(n, pr)):
             yield cuts_to_lengths(n, pr)
     if n <= 80:
@@ -125,7 +125,7 @@ def chunkings(stream, pkts, tier, rnd):
             yield cuts_to_lengths(n, bounds[k - 1:k])
     if emit([n]):
         yield [n]
-    for _ in range(30 if tier == "quick" else 400):
+    for _ in range((30 if n < 3000 else 6) if tier == "quick" else 400):
         k = rnd.randint(1, min(8, n - 1))
         cs = rnd.sample(range(1, n), k)
         if n > 3000:
